@@ -187,7 +187,7 @@ def run(ctx):
         else:
             n = 120 if not thorough else 3000
             lines = list(CORPUS) + [gen_script(rng) for _ in range(n)]
-            reals = ["R ok 6 2000", "R refused 4 2000", "R resolve 3 3000", "R hole 4 200", "R tlsbad 4 2000", "R tlshang 4 250", "R mixed 12 250",
+            reals = ["R ok 6 2000", "R refused 4 2000", "R resolve 3 3000", "R hole 4 200", "R tlsbad 4 2000", "R tlshang 4 250", "R mixed 12 250", "R slowio 1 100", "R slowio 1 40",
                      "R stop 4 5000", "R cancel 3 3000"]
             if thorough:
                 reals = reals * 6 + ["R mixed 32 300", "R hole 16 150"]
@@ -208,7 +208,8 @@ def run(ctx):
                 if line.startswith("R "):
                     kinds[line.split()[1]] = kinds.get(line.split()[1], 0) + 1
                     if ri != "R ok":
-                        sig = "global-callback-for-unhanded-id" if "global-callback" in ri else ("late-return" if "late-return" in ri else "sync-connect-outcome")
+                        sig = ("global-callback-for-unhanded-id" if "global-callback" in ri else "late-return" if "late-return" in ri else
+                               "timed-out-connection-left-open" if ("left-open" in ri or "open-sessions" in ri) else "sync-connect-outcome")
                         v.property_failure(sig, "real engine, scenario %s: %s" % (line.split()[1], ri[2:300]), line, ri)
                     else:
                         nontrivial += 1
@@ -232,7 +233,7 @@ def run(ctx):
                            "has released the mutex and is inside engine->close, after its return), timeouts (80 ms) and long waits, the "
                            "teardown fence, the engine refusing connects; compared: every caller's result, the global callback log, the close "
                            "commands received by the engine, leftover pendingConnects entries. Real engine: accepting / refused / unresolvable / "
-                           "black-holed targets, TLS targets that answer garbage or never answer, mixed concurrent callers, stop while parked, cancellation; return time <= timeout + 1 s. "
+                           "black-holed targets, TLS targets that answer garbage or never answer, a timeout while the I/O thread is held in a slow callback (the close queues behind the unexecuted connect), mixed concurrent callers, stop while parked, cancellation; return time <= timeout + 1 s. "
                            "Scripts skipped because a short-timeout caller fired before its scripted point: %d." % skipped)
             cov["samples"] = lines[4:6] + ["real scenarios: %s" % sorted(kinds.items())]
     rc = v.finish()
